@@ -17,10 +17,18 @@ CLAIMS = {
          "Sampling. Shares dealt to deviating recipients are not checked (they may collude). A change that only prevents groups from ever becoming ACTIVE does not violate the statement (reported as a zero probe, not a violation)."),
  "C05": ("§5/C05", "FIFO queue model per member fed by accepted MsgSubmitDEs/MsgResetDE; every assignment announced by an ordered request_signature event must pop the model queue head, never a consumed or reset pair; persisted attempts cross-checked against events; on-chain queues equal model queues after every block; over-limit submissions predicted.",
          "Sampling. Assignment order inside a block is taken from the ordered event stream and cross-checked against the persisted attempts. Signing creations that fail after a dequeue are provoked by multi-message transactions and tight gas."),
+ "C06": ("§5/C06", "Model of each validator's standing prices (from accepted submissions, with the chain's retention rule) and oracle-activity flags; at every block end every current feed's status and price are recomputed: power sums with big integers, quorum from bonded tokens, status rule, and the README's recency/power-weighted median implemented independently as an integral over cumulative power (ref/median); ties in (timestamp, power) are tried in every order; validators deactivated in the same end block may be counted or not. Plus boundary-biased differential draws of the real median functions on tiny integers each block.",
+         "Sampling of power/price/timestamp vectors (histories plus tiny-integer differential draws). Feed list correctness is C07; activity flags are C15."),
+ "C07": ("§5/C07", "Stake model (delegations, restaked coins, locks) fed by accepted staking/restake operations; every MsgVote checked against the TRUE big-integer sum of its powers vs. the voter's total power at that moment; stored vote, lock under the feeds vault, every signal's total and the by-power index compared with the model after every block; at each update block the feed list is checked as a set (all eligible, top by power, size, interval formula) and must not change between update blocks.",
+         "Sampling. The int64-wrap defect found by this check was repaired (see known_findings.json); the check reports it again if it returns."),
  "C09": ("§5/C09", "Rolling seed recomputed independently from the block hashes the conductor produced; for every accepted data request the committee is recomputed with an own NIST SP 800-90A HMAC-DRBG and an own implementation of the sampling specification over the model's eligible set (bonded, oracle-active, power-index order) and compared with the stored request (order included); for every signing attempt the eligible list (active, queued nonce in the model, id order) and partial Fisher-Yates are recomputed and compared; too-few-eligible must be rejected. Plus a differential run of the real sampler on tiny boundary-hitting weights per block.",
          "Sampling over (seed, id, weights) produced by histories; totals near 2^64 not reachable through bonded stake. Requests in a block after a staking transaction are skipped (power index may have moved)."),
  "C13": ("§5/C13", "Ledger model of payers, data-source treasuries, signing members and the bandtss escrow compared with bank balances after every block; fee limits drawn at cost-1 / cost / cost+1 / missing denom, poor payers; accept => exact movement within the limit, fee-rejection => model cost really exceeds the limit; payouts exactly once to the assigned members of the final attempt of the current-group signing, nothing for FALLEN or incoming-group signatures; escrow covers unfinished paid signings. Profiles: oracle with fee-bearing data sources, TSS with retries, governance transitions.",
          "Sampling. Inflation and community tax are switched off in these profiles so that only the services move coins. Rejected transactions are atomic by the SDK's transaction semantics; the end-block creations (oracle result signing) are checked through the ledger. IBC relay-paid requests are not generated."),
+ "C15": ("§5/C15", "Model of activation history, accepted reports and price submissions: every observed deactivation must be justified by a genuine miss (expired request that chose the validator, lacks its report and was made after its activation; or a current feed without a sufficiently recent price outside both grace periods); accepted MsgActivate only when inactive and past the penalty; on-chain activity flag equals the activation/deactivation history. Block times are aimed at every boundary (price time + interval, grace ends, penalty ends).",
+         "Only-if direction, as the statement is phrased; the block-height fallback only makes the chain more lenient and is not mirrored."),
+ "C16": ("§5/C16", "Stake model with boundary-aimed amounts (exactly the unlocked slack, one more): accepted undelegation/unstake must leave total power >= the largest lock over active vaults, a refusal for 'locked' must be backed by an active lock, rejected attempts change nothing (stake, delegation and lock records equal the model), module-level SetLockedPower/DeactivateVault applied between blocks on every replica, vault never reactivates, restake module balance == sum of stake records, by-power lock index == locks (raw store iteration).",
+         "No slashing in these histories (all validators vote), as the property assumes. Redelegation keeps total power: either outcome is accepted, only state consistency is checked."),
  "C18": ("§5/C18", "Executable specification state machine of the single transition slot advanced per block in end-blocker order (gov, tss, bandtss) from facts owned by other modules (proposal executed, DKG outcome, hand-over signing outcome, block time) and compared with the chain's current group, transition record and module member list after every block; proposal acceptance predicted (window, in-progress, forced-group validity); requests while a transition awaits execution must create a current-group signing and at most an incoming-group one.",
          "Sampling. DKG outcome and signing outcome are taken from chain state (their correctness is C04/C10). 'Without affecting the current group's signing' is decided by the C05/C09 checks, whose workloads include this profile."),
  "C10": ("§5/C10", "Per-attempt model: stored expiry = creation + period in force; time-out never early, exactly on time while the parameter is unchanged; SUCCESS in the block of the last share; retry iff attempts left and enough available members (model availability at that point of the end block) else FALLEN; penalised set = idle assigned members active in the owning module; status/attempt monotone; one outcome event; interim data removed; drain-phase liveness.",
